@@ -51,6 +51,9 @@ func symSource(maxb int) []*srcEnt {
 		out = append(out, e)
 		return e
 	}
+	if shape == 0 && v.Param("LN", 0) != 0 && v.Bool("has-listing-name") {
+		mk(metadataPath, clsFile) // a plain transfer treats this name like any other
+	}
 	mk("d", clsDir)
 	fClass := -1
 	if shape != 0 && v.Bool("has-d/f") {
@@ -76,7 +79,12 @@ func symSource(maxb int) []*srcEnt {
 		e.stat.Size = 0
 		e.data = nil
 		// a hard link carries the metadata of its inode
-		f := out[1].stat
+		var f *types.Stat
+		for _, o := range out {
+			if o.stat.Path == "d/f" {
+				f = o.stat
+			}
+		}
 		e.stat.Mode, e.stat.Uid, e.stat.Gid, e.stat.ModTime = f.Mode, f.Uid, f.Gid, f.ModTime
 	}
 	return out
@@ -106,6 +114,9 @@ func symPriorDestGid(dest string, src []*srcEnt, rewrite bool, gid uint32) map[s
 		np := 5
 		if p == "d" {
 			np = 3
+		}
+		if v.Param("META", 0) != 0 && p != "d" && os.FileMode(st.Mode)&os.ModeType == 0 && !isHardlink {
+			np = 6
 		}
 		switch c := v.Choose("prior-"+p, np); c {
 		case 0:
@@ -141,14 +152,24 @@ func symPriorDestGid(dest string, src []*srcEnt, rewrite bool, gid uint32) map[s
 		case 4:
 			state[p] = "other-symlink"
 			m.MkSymlink(full, "elsewhere", 7, 7, 5)
+		case 5:
+			// a pure metadata edit: same bytes, size and mtime, other owner
+			state[p] = "other-meta"
+			m.MkFile(full, e.data, goModeToUnixPerm(st.Mode), st.Uid+1, st.Gid, st.ModTime)
 		}
 	}
 	if v.Param("SHAPE", 2) == 0 {
-		switch v.Choose("stale-zz", 3) {
+		nStale := 3
+		if v.Param("TMP", 0) != 0 {
+			nStale = 4
+		}
+		switch v.Choose("stale-zz", nStale) {
 		case 1:
 			m.MkFile(dest+"/zz", []byte("z"), 0644, 0, 0, 5)
 		case 2:
 			m.MkSymlink(dest+"/zz", "does-not-exist", 0, 0, 5) // a dangling stale symlink
+		case 3:
+			m.MkFile(dest+"/.tmp.zz", []byte("t"), 0644, 0, 0, 5) // a stale entry named like the writer's temp files
 		}
 	}
 	return state
@@ -220,6 +241,9 @@ func VH_C07_receiver() {
 	prior := symPriorDest(dest, src)
 	ctx := context.Background()
 	rcv, snd := newStreamPair(ctx, 256)
+	// LAT=1: every SendMsg of the receiver returns only after the peer reacted, so the sender's DATA
+	// for an id can reach the receive loop before the REQ call has returned
+	rcv.latency = v.Param("LAT", 0) != 0
 	var recvErr error
 	done := make(chan struct{})
 	go func() {
